@@ -162,6 +162,45 @@ def only_unplaced(cell):
 
 
 @spec
+def removable(a, srv):
+    """C08: the only reasons the inactive-server pass may take an instance off its server."""
+    return ((srv._state == State.down and (a.data_retention_timeout is None or
+                                           srv._state_since + a.data_retention_timeout <= clock_now())) or
+            (srv._state == State.frozen and old(a.unschedule)))
+
+
+@spec
+def kept_ok(cell, servers):
+    """An instance keeps its server through the inactive-server pass unless `removable`."""
+    return forall(lambda n: implies(n in cell.apps,
+                                    (cell.apps[n].server == old(cell.apps[n].server) and
+                                     (cell.apps[n].server is None or
+                                      cell.apps[n].unschedule == old(cell.apps[n].unschedule))) or
+                                    (cell.apps[n].server is None and old(cell.apps[n].server) in servers and
+                                     removable(cell.apps[n], servers[old(cell.apps[n].server)]))), 'Name')
+
+
+@spec
+def nonup_kept(cell, servers):
+    """C08: no instance leaves a server that is not up (never evicted for capacity, never moved)."""
+    return forall(lambda n: implies(n in cell.apps and old(cell.apps[n].server) is not None and
+                                    old(cell.apps[n].server) in servers and
+                                    servers[old(cell.apps[n].server)]._state != State.up,
+                                    cell.apps[n].server == old(cell.apps[n].server)), 'Name')
+
+
+@spec
+def nonup_kept_unless_capped(cell, servers):
+    """C08 for the placement walk: an instance on a server that is not up keeps it unless it is over its
+    utilisation cap (never a victim, never moved)."""
+    return forall(lambda n: implies(n in cell.apps and old(cell.apps[n].server) is not None and
+                                    old(cell.apps[n].server) in servers and
+                                    servers[old(cell.apps[n].server)]._state != State.up and
+                                    cell.apps[n].final_rank != 9223372036854775807,
+                                    cell.apps[n].server == old(cell.apps[n].server)), 'Name')
+
+
+@spec
 def cell_inv(cell, servers):
     return (apps_ok(cell) and srv_ok(servers) and link_ok(cell, servers) and back_ok(cell, servers) and
             ident_ok(cell))
@@ -366,7 +405,12 @@ contract(M + ':Cell._find_placements',
                   ('C03', 'forall(lambda n: implies(n in self.apps and self.apps[n].server is not None and '
                           '  self.apps[n].server != old(self.apps[n].server), assigned_ok(self.apps[n], servers)), "Name")'),
                   ('C03', 'standing_ok(self, servers)'), ('C03', 'lease_same(self)'),
-                  ('C03', 'clock_now() >= old(clock_now())')],
+                  ('C03', 'clock_now() >= old(clock_now())'),
+                  ('C08', 'nonup_kept_unless_capped(self, servers)'),
+                  # frozen / down servers receive nothing new (C08), same clause as C03 (a)
+                  ('C08', 'forall(lambda n: implies(n in self.apps and self.apps[n].server is not None and '
+                          '  self.apps[n].server != old(self.apps[n].server), '
+                          '  servers[self.apps[n].server]._state == State.up), "Name")')],
          modifies=FIND_MODIFIES, props=['C01', 'C03', 'C05', 'C08'])
 invariant(M + ':Cell._find_placements', 0, 'for app in queue',
           ['srv_ok(servers)', 'link_ok(self, servers)', 'back_ok(self, servers)', 'ident_ok(self)',
@@ -378,7 +422,9 @@ invariant(M + ':Cell._find_placements', 0, 'for app in queue',
            ('C05,C08', 'blacklist_ok(self)'),
            # only this cycle's victims whose turn is still to come are unplaced with an identity
            ('C05', 'forall(lambda n: implies(n in self.apps and not unplaced_free(self.apps[n]), '
-                   '       self.apps[n] in evicted and _i <= qidx(queue, self.apps[n])), "Name")'),
+                   '       self.apps[n] in evicted), "Name")'),
+           ('C05', 'forall(lambda a: implies(a in evicted and not unplaced_free(a), _i <= qidx(queue, a)), '
+                   '       "Application")'),
            ('C05', 'ident_nonneg(self)'),
            ('C05', 'forall(lambda a: implies(a in evicted, not a.blacklisted), "Application")'),
            ('C03', 'standing_ok(self, servers)'),
@@ -389,7 +435,16 @@ invariant(M + ':Cell._find_placements', 0, 'for app in queue',
                    '  0 <= qidx(queue, self.apps[n]) and queue[qidx(queue, self.apps[n])] == self.apps[n] and '
                    '  (qidx(queue, self.apps[n]) < _i or self.apps[n] in evicted)), "Name")'),
            ('C03', 'forall(lambda a: implies(a in evicted, evicted[a][0].name == old(a.server)), "Application")'),
-           ('C03', 'clock_now() >= old(clock_now())'), ('C03', 'lease_same(self)')])
+           ('C03', 'clock_now() >= old(clock_now())'), ('C03', 'lease_same(self)'),
+           ('C08', 'nonup_kept_unless_capped(self, servers)'),
+           ('C08', 'forall(lambda n: implies(n in self.apps and self.apps[n].server is not None and '
+                   '  self.apps[n].server != old(self.apps[n].server), '
+                   '  servers[self.apps[n].server]._state == State.up), "Name")'),
+           ('C08', 'forall(lambda a: implies(a in evicted, evicted[a][0].name == old(a.server) and '
+                   '  evicted[a][0]._state == State.up), "Application")'),
+           ('C08', 'forall(lambda n: implies(n in self.apps and self.apps[n].server != old(self.apps[n].server), '
+                   '  0 <= qidx(queue, self.apps[n]) and queue[qidx(queue, self.apps[n])] == self.apps[n] and '
+                   '  (qidx(queue, self.apps[n]) < _i or self.apps[n] in evicted)), "Name")')])
 invariant(M + ':Cell._find_placements', 1, 'for evicted_app in reversed_queue',
           ['srv_ok(servers)', 'link_ok(self, servers)', 'back_ok(self, servers)', 'ident_ok(self)',
            'all_strategies_ok()', 'strat_nodes_ok()',
@@ -400,8 +455,9 @@ invariant(M + ':Cell._find_placements', 1, 'for evicted_app in reversed_queue',
            ('C05', 'groups_ok(self)'), ('C05', 'held_distinct(self)'), ('C05', 'held_not_free(self)'), ('C05', 'in_range_ok(self)'),
            ('C05,C08', 'blacklist_ok(self)'),
            ('C05', 'forall(lambda n: implies(n in self.apps and not unplaced_free(self.apps[n]) and '
-                   '       self.apps[n] != app, self.apps[n] in evicted and '
-                   '       qidx(queue, app) < qidx(queue, self.apps[n])), "Name")'),
+                   '       self.apps[n] != app, self.apps[n] in evicted), "Name")'),
+           ('C05', 'forall(lambda a: implies(a in evicted and a != app and not unplaced_free(a), '
+                   '       qidx(queue, app) < qidx(queue, a)), "Application")'),
            ('C05', 'ident_nonneg(self)'),
            ('C05', 'forall(lambda a: implies(a in evicted, not a.blacklisted), "Application")'),
            ('C03', 'standing_ok(self, servers)'),
@@ -412,7 +468,16 @@ invariant(M + ':Cell._find_placements', 1, 'for evicted_app in reversed_queue',
                    '  0 <= qidx(queue, self.apps[n]) and queue[qidx(queue, self.apps[n])] == self.apps[n] and '
                    '  (qidx(queue, self.apps[n]) < (qidx(queue, app) + 1) or self.apps[n] in evicted)), "Name")'),
            ('C03', 'forall(lambda a: implies(a in evicted, evicted[a][0].name == old(a.server)), "Application")'),
-           ('C03', 'clock_now() >= old(clock_now())'), ('C03', 'lease_same(self)')])
+           ('C03', 'clock_now() >= old(clock_now())'), ('C03', 'lease_same(self)'),
+           ('C08', 'nonup_kept_unless_capped(self, servers)'),
+           ('C08', 'forall(lambda n: implies(n in self.apps and self.apps[n].server is not None and '
+                   '  self.apps[n].server != old(self.apps[n].server), '
+                   '  servers[self.apps[n].server]._state == State.up), "Name")'),
+           ('C08', 'forall(lambda a: implies(a in evicted, evicted[a][0].name == old(a.server) and '
+                   '  evicted[a][0]._state == State.up), "Application")'),
+           ('C08', 'forall(lambda n: implies(n in self.apps and self.apps[n].server != old(self.apps[n].server), '
+                   '  0 <= qidx(queue, self.apps[n]) and queue[qidx(queue, self.apps[n])] == self.apps[n] and '
+                   '  (qidx(queue, self.apps[n]) < (qidx(queue, app) + 1) or self.apps[n] in evicted)), "Name")')])
 
 
 # ------------------------------------------------------------------ pre-passes of a cycle
@@ -536,13 +601,15 @@ contract(M + ':Cell._handle_inactive_servers',
                   'ident_ok(self)',
                   ('C05', 'groups_ok(self)'), ('C05', 'held_distinct(self)'), ('C05', 'held_not_free(self)'), ('C05', 'ident_nonneg(self)'), ('C05', 'all_unplaced_free(self)'),
                   ('C03', 'standing_ok(self, servers)'), ('C03', 'clock_now() >= old(clock_now())'),
-                  ('C03', 'only_unplaced(self)')],
+                  ('C03', 'only_unplaced(self)'),
+                  ('C08', 'kept_ok(self, servers)')],
          modifies=PREPASS_MODIFIES + ['self.next_event_at'], props=['C01', 'C05', 'C08'])
 invariant(M + ':Cell._handle_inactive_servers', 0, 'for server in servers.values()',
           ['srv_ok(servers)', 'back_ok(self, servers)', 'link_ok(self, servers)', 'ident_ok(self)',
            ('C05', 'groups_ok(self)'), ('C05', 'held_distinct(self)'), ('C05', 'held_not_free(self)'), ('C05', 'ident_nonneg(self)'), ('C05', 'all_unplaced_free(self)'),
            ('C03', 'standing_ok(self, servers)'), ('C03', 'clock_now() >= old(clock_now())'),
-           ('C03', 'only_unplaced(self)')])
+           ('C03', 'only_unplaced(self)'),
+           ('C08', 'kept_ok(self, servers)')])
 invariant(M + ':Cell._handle_inactive_servers', 1, 'for (name, app) in server.apps.items()',
           ['srv_ok(servers)', 'back_ok(self, servers)', 'link_ok(self, servers)', 'ident_ok(self)',
            'server.apps == at_loop_entry(server.apps)',
@@ -552,13 +619,25 @@ invariant(M + ':Cell._handle_inactive_servers', 1, 'for (name, app) in server.ap
            '       _pos(to_be_moved[p].name) < _pos(to_be_moved[q].name)), "Int", "Int")',
            ('C05', 'groups_ok(self)'), ('C05', 'held_distinct(self)'), ('C05', 'held_not_free(self)'), ('C05', 'ident_nonneg(self)'), ('C05', 'all_unplaced_free(self)'),
            ('C03', 'standing_ok(self, servers)'), ('C03', 'clock_now() >= old(clock_now())'),
-           ('C03', 'only_unplaced(self)')])
+           ('C03', 'only_unplaced(self)'),
+           ('C08', 'kept_ok(self, servers)'),
+           ('C08', 'state == State.down and server._state == state and server._state_since == since'),
+           ('C08', 'forall(lambda p: implies(0 <= p and p < len(to_be_moved), '
+                   '  to_be_moved[p].data_retention_timeout is None or '
+                   '  since + to_be_moved[p].data_retention_timeout <= clock_now()), "Int")')])
 invariant(M + ':Cell._handle_inactive_servers', 2, 'for app in to_be_moved',
           ['srv_ok(servers)', 'back_ok(self, servers)', 'link_ok(self, servers)', 'ident_ok(self)',
            'moved_ok(to_be_moved, server, _i)',
            ('C05', 'groups_ok(self)'), ('C05', 'held_distinct(self)'), ('C05', 'held_not_free(self)'), ('C05', 'ident_nonneg(self)'), ('C05', 'all_unplaced_free(self)'),
            ('C03', 'standing_ok(self, servers)'), ('C03', 'clock_now() >= old(clock_now())'),
-           ('C03', 'only_unplaced(self)')])
+           ('C03', 'only_unplaced(self)'),
+           ('C08', 'kept_ok(self, servers)'),
+           ('C08', 'server._state == state and server._state_since == since'),
+           ('C08', 'forall(lambda p: implies(_i <= p and p < len(to_be_moved), '
+                   '  (state == State.down and (to_be_moved[p].data_retention_timeout is None or '
+                   '     since + to_be_moved[p].data_retention_timeout <= clock_now())) or '
+                   '  (state == State.frozen and to_be_moved[p].unschedule and '
+                   '     to_be_moved[p].unschedule == old(to_be_moved[p].unschedule))), "Int")')])
 
 
 # ------------------------------------------------------------------ schedule_alloc / schedule
